@@ -84,20 +84,22 @@ def token : Step → String
 def fmtList (l : List String) : String :=
   if l.isEmpty then "[-]" else "[" ++ ";".intercalate l ++ "]"
 
-def fmtObs (st : Step) (o : Obs String) : String :=
+/-- `exact = false` (an iterator without `ExactSizeIterator`): any `size_hint` that bounds the
+number of remaining items is lawful; the harness prints `h=ok` for such an answer. -/
+def fmtObs (st : Step) (o : Obs String) (exact : Bool := true) : String :=
   match o with
   | .unit => token st
   | .item none => token st ++ "=none"
   | .item (some x) => token st ++ "=" ++ x
   | .num n =>
     match st with
-    | .hint => token st ++ "=" ++ toString n ++ ".." ++ toString n
+    | .hint => if exact then token st ++ "=" ++ toString n ++ ".." ++ toString n else "h=ok"
     | _ => token st ++ "=" ++ toString n
   | .items l => token st ++ "=" ++ fmtList l
 
 /-- The observation line of a script on the iterator that yields `items` (already formatted).
-`de = false`: a forward-only iterator; a script asking it for a double-ended method is answered
-`it no-such-method <token>` (first such step), as the harness does. -/
+`de = false`: a forward-only iterator without exact size hints; a script asking it for a
+double-ended method is answered `it no-such-method <token>` (first such step), as the harness does. -/
 def scriptObs (items : List String) (steps : List Step) (de : Bool) : String :=
   let firstDe := steps.find? (fun st => match st with | .nextBack | .nthBack _ | .rev | .len => true | _ => false)
   match de, firstDe with
@@ -106,7 +108,7 @@ def scriptObs (items : List String) (steps : List Step) (de : Bool) : String :=
     "it no-such-method " ++ token st
   | _, _ =>
     let obs := run items steps
-    let entries := (steps.zip obs).map (fun (st, o) => fmtObs st o)
+    let entries := (steps.zip obs).map (fun (st, o) => fmtObs st o de)
     "it " ++ (if entries.isEmpty then "-" else " ".intercalate entries)
 
 end Woodpile.Driver.IterScriptText
